@@ -133,7 +133,11 @@ Qed.
 
 Lemma dec_N_digits ds : Numeral ds -> Shortest ds -> digits_val ds < 18446744073709551616 ->
   dec_N (digits_val ds) = ds.
-Proof. intros HN HS Hlt. unfold dec_N. apply print_dec_inv; [assumption..|]. cbn. lia. Qed.
+Proof.
+  intros HN HS Hlt. unfold dec_N. apply print_dec_inv; [assumption..|].
+  assert (Hpow : 10 ^ N.of_nat 20 = 100000000000000000000) by (vm_compute; reflexivity).
+  rewrite Hpow. lia.
+Qed.
 
 (* ---- (1) the encoder's output is canonical and denotes the value ------------------ *)
 
